@@ -6,7 +6,8 @@ Observation compared: the artefact tree (astwire.enc_stmt of the returned ClassD
 IR object after the call; exceptions by kind.
 
 Boundary inputs of the model, recorded from the very call being compared:
-  tds  what doctrans.emit.to_docstring returned + a deep copy of the IR it was given, after it returned;
+  tds  what doctrans.emit.to_docstring returned (it works on copies of the param dicts: the model reads the IR the
+       emitter was handed; the caller's IR after the call is part of the compared observation);
   ds   what doctrans.emit.docstring returned inside argparse_function;
   pt   ast.parse(s).body[0].value for every str default / type string of the IR (before and after to_docstring).
 """
@@ -190,7 +191,7 @@ class Recorder:
                 raise
             snap = copy.deepcopy(intermediate_repr)
             rec.irs.append(snap)
-            rec.tds = [Sym("ok"), [r, irwire.enc_ir(snap)]]
+            rec.tds = [Sym("ok"), r]
             rec.tds_text = r
             return r
 
